@@ -28,6 +28,7 @@ type Sel struct {
 type CPort struct {
 	Name, Proto string
 	Port        int
+	NoProto     bool // the manifest gives no protocol (Proto holds TCP, the default)
 }
 
 type NsObj struct {
@@ -222,8 +223,8 @@ func sxCPorts(ps []CPort) *Sx {
 	r := Ls(At("cports"))
 	for _, p := range ps {
 		pr := p.Proto
-		if pr == "" {
-			pr = "TCP"
+		if pr == "" || p.NoProto {
+			pr = "-" // written without a protocol; read as TCP by every consumer
 		}
 		r.Add(Ls(At(dash(p.Name)), At(pr), Ai(int64(p.Port))))
 	}
@@ -458,7 +459,11 @@ func pOptStr(s *Sx) *string {
 func pCPorts(s *Sx) []CPort {
 	var r []CPort
 	for _, c := range s.Args() {
-		r = append(r, CPort{Name: undash(c.L[0].A), Proto: c.L[1].A, Port: atoi(c.L[2].A)})
+		cp := CPort{Name: undash(c.L[0].A), Proto: c.L[1].A, Port: atoi(c.L[2].A)}
+		if cp.Proto == "-" {
+			cp.Proto, cp.NoProto = "TCP", true
+		}
+		r = append(r, cp)
 	}
 	return r
 }
@@ -644,7 +649,7 @@ func jCPorts(ps []CPort) []M {
 		if p.Name != "" {
 			m["name"] = p.Name
 		}
-		if p.Proto != "" {
+		if p.Proto != "" && !p.NoProto {
 			m["protocol"] = p.Proto
 		}
 		r = append(r, m)
